@@ -45,24 +45,11 @@ def main():
     finally:
         sh(["git", "-C", "/repo", "worktree", "remove", "--force", wt])
         shutil.rmtree(wt, ignore_errors=True)
-    # run the checks against it
-    st = sh(["git", "-C", "/repo", "status", "--porcelain", "--untracked-files=no"])[1]
-    if st.strip():
-        print("refusing: /repo has local modifications")
-        return 2
-    results = {}
-    rc, out = sh(["git", "-C", "/repo", "apply", patch])
-    assert rc == 0, out
-    try:
-        for pid in pids:
-            rc, out = sh(["./check", pid, "--tier", "quick"], cwd="/verif", timeout=3600)
-            viol = [l for l in out.splitlines() if l.startswith("VIOLATION")]
-            results[pid] = {"exit": rc, "violation_lines": len(viol)}
-            print(f"{pid}: exit={rc} violations={len(viol)}")
-            ran.append(f"./check {pid} --tier quick with change: exit {rc}, {len(viol)} VIOLATION lines")
-    finally:
-        sh(["git", "-C", "/repo", "checkout", "--", "."])
-        sh(["git", "-C", "/verif", "checkout", "--", "evidence"])
+    # run the checks against it (scratch worktree + VERIF_REPO; /repo itself is not touched)
+    from harness import seedtest
+    results = seedtest.judge(patch, pids) or {}
+    for pid, r in results.items():
+        ran.append(f"./check {pid} --tier quick with change (VERIF_REPO=scratch worktree): exit {r['exit']}, {r['violation_lines']} VIOLATION lines")
     dst = os.path.join("/verif/seeded", name)
     os.makedirs(dst, exist_ok=True)
     for f in ("patch.diff", "demo.py", "notes.md"):
